@@ -98,6 +98,19 @@ Theorem C13_entropy_diversity_in_unit_interval : forall l : list Rdefinitions.R,
 Proof. exact RealClosing.entropy_diversity_bounds. Qed.
 Print Assumptions C13_entropy_diversity_in_unit_interval.
 
+(* Spearman's variant correlates the RANKS of the criteria: the variance of a tie-free rank column 1..n has the closed
+   form (n^2 - 1) / 12, a column with ties (average ranks) has a smaller one - a shortcut that assumes the closed form
+   for every criterion is only right without ties *)
+From SKC Require Import Theory.RankVar.
+Theorem C13_variance_of_tie_free_ranks : forall n,
+  (1 <= n)%nat -> (pvar (ranks n) == (qnat n * qnat n - 1) / 12)%Q.
+Proof. exact pvar_of_tie_free_ranks. Qed.
+Print Assumptions C13_variance_of_tie_free_ranks.
+
+Example C13_tied_ranks_have_smaller_variance :
+  (pvar [1; 5 # 2; 5 # 2; 4] < (qnat 4 * qnat 4 - 1) / 12)%Q.
+Proof. exact tied_ranks_have_smaller_variance. Qed.
+
 Example C13_example :
   svar [1; 2; 3] == 1 /\ pvar [1; 2; 3] == 2 # 3 /\ cov [1; 2; 3] [3; 2; 1] == - (2 # 3) /\
   avg_rank [5; 1; 5; 7] = [1 + (2 + 1) / 2; 0 + (1 + 1) / 2; 1 + (2 + 1) / 2; 3 + (1 + 1) / 2] /\
